@@ -171,6 +171,62 @@ def check_case(part, item):
 WIDE = [2.0 ** -10, 2.0 ** 30, 3 * 2.0 ** 20, 0.0, 1.0, 2.0 ** 30]
 
 
+XPROC = r"""
+import json, sys
+sys.path.insert(0, sys.argv[1])
+from kfac.assignment import KAISAAssignment
+out = {}
+names = ['conv1', 'layer1.0.conv1', 'layer1.0.conv2', 'fc', 'head', 'b', 'a',
+         'zz', 'block.3.mlp', 'x' * 9]
+for nl in (2, 3, 5, 8, 10):
+    for tie in (1.0, 0.0, 7.5):
+        work = {n: {'A': tie, 'G': tie} for n in names[:nl]}
+        work[names[0]] = {'A': tie, 'G': tie + (1.0 if nl % 2 else 0.0)}
+        for groups in ([[0]], [[0, 1]], [[0], [1]], [[0, 1], [2, 3]],
+                       [[0, 2], [1, 3]], [[0, 1, 2]]):
+            world = max(max(g) for g in groups) + 1
+            for col in (True, False):
+                res = KAISAAssignment.greedy_assignment(
+                    work, [list(g) for g in groups], world, col)
+                out[f'{nl}/{tie}/{groups}/{col}'] = res
+print(json.dumps(out, sort_keys=True))
+"""
+
+
+def cross_process(run):
+    """Pure function of its arguments also across interpreters: string
+    hashing differs per process (PYTHONHASHSEED), ties must not follow it."""
+    import json
+    import os
+    import subprocess
+
+    procs = {}
+    for hs in ('0', '1', '4242', 'random'):
+        procs[hs] = subprocess.Popen(
+            ['/venv/bin/python', '-W', 'ignore', '-c', XPROC, core.REPO],
+            stdout=subprocess.PIPE, stderr=subprocess.PIPE, text=True,
+            env=dict(os.environ, PYTHONHASHSEED=hs))
+    outs = {}
+    for hs, p in procs.items():
+        o, e = p.communicate(timeout=600)
+        if p.returncode:
+            run.violation('xproc-exception', f'hash seed {hs}: {e[-300:]}')
+            return
+        outs[hs] = json.loads(o)
+    ref = outs['0']
+    run.count('evaluations', sum(len(o) for o in outs.values()))
+    for hs, o in outs.items():
+        for key in ref:
+            if o[key] != ref[key]:
+                run.violation(
+                    'xproc-differs',
+                    f'greedy_assignment for {key} (layers/tie cost/groups/'
+                    f'colocate) under PYTHONHASHSEED={hs} gives {o[key]} but '
+                    f'{ref[key]} under PYTHONHASHSEED=0')
+                return
+    run.seen('nontrivial', ('xproc', len(ref)))
+
+
 def main(run: core.Run):
     thorough = run.tier == 'thorough'
     maxw = 6 if thorough else 5
@@ -226,6 +282,7 @@ def main(run: core.Run):
     run.notes['partitions'] = len(parts)
     run.notes['work_dicts'] = len(seen)
     core.pmap(run, check_case, items, chunk=2000)
+    cross_process(run)
     run.c['states'] = run.c.get('evaluations', 0)
     run.c['transitions'] = run.c.get('evaluations', 0)
     run.c['distinct_nontrivial'] = len(run.distinct.get('nontrivial', ()))
@@ -234,7 +291,7 @@ def main(run: core.Run):
         f'work dictionary in the boxes {boxes} (max layers, max factors per '
         'layer, cost alphabet) + a wide-range catalogue + large near-equal '
         'costs (2^24 + i) x colocate on/off; '
-        'depth-2 call histories for purity; non-trivial = >1 layer and the '
+        'depth-2 call histories for purity, and tie-heavy dictionaries with string names in 4 interpreters with different hash seeds; non-trivial = >1 layer and the '
         'result uses >1 worker')
     run.sample(items[len(items) // 2])
     run.sample(items[-1])
